@@ -285,15 +285,26 @@ def run_tap(spec, rec):
         # bound method wrapper: a = (public_pair, val, sig)
         seen.append(a[1] if len(a) > 1 else kw.get("val"))
     gen_cls = type(secp256k1_generator)
-    w = Wrapped(gen_cls, "verify", after=lambda a, kw, r, e: seen.append(a[2] if len(a) > 2 else kw.get("val")), rec=rec, op="Generator.verify")
+    seen_pairs = []
+
+    def tap(a, kw, r, e):
+        val = a[2] if len(a) > 2 else kw.get("val")
+        sig = a[3] if len(a) > 3 else kw.get("sig")
+        seen.append(val)
+        try:
+            seen_pairs.append((val, sig[0]))
+        except Exception:
+            pass
+    w = Wrapped(gen_cls, "verify", after=tap, rec=rec, op="Generator.verify")
     rec.require("tap:Generator.verify")
     try:
         keys = G.Keys()
         sg = G.SigGen(rng, keys)
         half = spec["n"] // 2
-        for gen in (sg.p2pk_like(half), sg.multisig(half // 3)):
+        for gen in (sg.p2pk_like(half), sg.multisig(half // 3), G.two_sigops_cases(rng, keys, half // 4)):
             for case in gen:
                 del seen[:]
+                del seen_pairs[:]
                 log = []
                 tx, n = case["tx"], case["n_in"]
                 chk = RS.TxChecker(tx, n, case["amount"], sighash_log=log)
@@ -304,7 +315,13 @@ def run_tap(spec, rec):
                 code, _ = py.spend(case)
                 ptx2 = py.build(case)
                 rec.ev("Tx.check_solution")
-                ref_digests = {int.from_bytes(d, "big") for _, _, _, d in log}
+                ref_digests = {int.from_bytes(e[3], "big") for e in log}
+                # the digests consensus defines per signature (keyed by the signature's r value)
+                by_r = {}
+                for e in log:
+                    rs = RS.parse_der_lax(e[4][:-1])
+                    if rs:
+                        by_r.setdefault(rs[0], set()).add(int.from_bytes(e[3], "big"))
                 rec.case(("tap", i["script"], case["spk"], tuple(i["witness"]), case["flags"], tx["version"]), nontrivial=bool(ref_digests))
                 got = set(seen)
                 if got:
@@ -315,6 +332,11 @@ def run_tap(spec, rec):
                 # (signature, script code) pair of this input; pycoin may verify fewer (it gives up on a pair earlier)
                 if not got <= ref_digests:
                     rec.violation("tap.verified_digest_not_a_consensus_digest", case, sorted(got - ref_digests), sorted(ref_digests))
+                else:
+                    for val, r_ in seen_pairs:
+                        if r_ in by_r and val not in by_r[r_]:
+                            rec.violation("tap.signature_verified_against_another_operations_digest", case, val, sorted(by_r[r_]))
+                            break
         rec.sample({"op": "Generator.verify tap", "digests_seen_last_case": [hex(x) for x in list(seen)[:2]]})
     finally:
         w.restore()
